@@ -418,24 +418,28 @@ Proof.
   induction ps as [|p rest IH]; intros Hwf b idx dim.
   - cbn [enc]. destruct ((idx =? 0) && negb b) eqn:E.
     + apply andb_true_iff in E as [E _]. apply N.eqb_eq in E. subst idx.
-      exists [c_0], [], 0. repeat split; try reflexivity. left; reflexivity.
+      exists [c_0], [], 0. split; [reflexivity|]. split; [reflexivity|].
+      split; [change (dec_val [c_0]) with 0; lia|left; reflexivity].
     + destruct (write_fork_index_spec dim idx) as (ds & E1 & Hd & _ & Hv).
-      exists ds, [], 0. rewrite E1, app_nil_r. repeat split; try assumption; [lia|left; reflexivity].
+      exists ds, [], 0. split; [rewrite E1, app_nil_r; reflexivity|].
+      split; [exact Hd|]. split; [lia|left; reflexivity].
   - inversion Hwf as [|? ? Hp Hrest]; subst.
     destruct (wf_range p Hp) as (alen & Hr & Hpos & Hid).
     cbn [enc]. rewrite Hr.
     destruct (write_fork_index_spec dim idx) as (ds & E1 & Hd & _ & Hv).
     destruct (p_id p) as [a|k| |] eqn:Eid; try contradiction.
     + cbn [negb]. rewrite andb_true_r. destruct (variable_len p alen).
-      * exists ds, (c_us :: enc false true a alen rest), 0. rewrite E1, <- app_assoc.
-        repeat split; try assumption; [lia|]. right. do 2 eexists. split; [reflexivity|apply c_us_nondigit].
+      * exists ds, (c_us :: enc false true a alen rest), 0.
+        split; [rewrite E1, <- app_assoc; reflexivity|].
+        split; [exact Hd|]. split; [lia|].
+        right. do 2 eexists. split; [reflexivity|apply c_us_nondigit].
       * destruct (IH Hrest b (idx + dim * a) (dim * alen)) as (ds2 & tl & m & E2 & Hd2 & Hv2 & Ht).
-        exists ds2, tl, (a + alen * m). repeat split; try assumption. lia.
+        exists ds2, tl, (a + alen * m).
+        split; [exact E2|]. split; [exact Hd2|]. split; [lia|exact Ht].
     + exists ds, (c_slash :: s_fork_us ++ path_escape k ++ match rest with [] => [] | _ => c_slash :: enc true true 0 1 rest end), 0.
-      rewrite E1. repeat split; try assumption.
-      * rewrite <- !app_assoc. reflexivity.
-      * lia.
-      * right. do 2 eexists. split; [reflexivity|apply c_slash_nondigit].
+      split; [rewrite E1; cbn [app]; rewrite <- !app_assoc; reflexivity|].
+      split; [exact Hd|]. split; [lia|].
+      right. do 2 eexists. split; [reflexivity|apply c_slash_nondigit].
 Qed.
 
 Lemma enc_diverged : forall ps qs, Forall wf_part ps -> Forall wf_part qs ->
@@ -537,19 +541,21 @@ Proof.
     destruct (p_known p && (p_srclen p <=? a2)); [discriminate|].
     f_equal.
     destruct (print_dec_spec a1) as (D1 & N1 & V1). destruct (print_dec_spec a2) as (D2 & N2 & V2).
-    destruct (a1 =? 0) eqn:Z1; destruct (a2 =? 0) eqn:Z2;
-      inversion E1 as [X1]; rewrite <- X1 in E2; inversion E2 as [X2].
+    destruct (a1 =? 0) eqn:Z1; destruct (a2 =? 0) eqn:Z2.
     + apply N.eqb_eq in Z1, Z2. congruence.
-    + apply N.eqb_eq in Z1. subst a1. unfold fork0 in X2. apply app_inv_head in X2.
-      rewrite <- V2, X2. reflexivity.
-    + apply N.eqb_eq in Z2. subst a2. unfold fork0 in X2. apply app_inv_head in X2.
-      rewrite <- V1, <- X2. reflexivity.
-    + apply app_inv_head in X2. rewrite <- V1, <- V2, X2. reflexivity.
+    + rewrite <- E2 in E1; injection E1 as X.
+      try apply app_inv_head in X.
+      apply N.eqb_eq in Z1. subst a1. rewrite <- V2, <- X. reflexivity.
+    + rewrite <- E2 in E1; injection E1 as X.
+      try apply app_inv_head in X.
+      apply N.eqb_eq in Z2. subst a2. rewrite <- V1, X. reflexivity.
+    + rewrite <- E2 in E1; injection E1 as X. try apply app_inv_head in X.
+      rewrite <- V1, <- V2, X. reflexivity.
   - (* keys *)
     destruct (p_known p && negb (mem_bytes k1 (p_srckeys p))); [discriminate|].
     destruct (p_known p && negb (mem_bytes k2 (p_srckeys p))); [discriminate|].
-    inversion E1 as [X1]; rewrite <- X1 in E2; inversion E2 as [X2].
-    apply app_inv_head in X2. f_equal. symmetry. apply path_escape_inj_lemma. exact X2.
+    rewrite <- E2 in E1. injection E1 as X.
+    try apply app_inv_head in X. f_equal. apply path_escape_inj_lemma. exact X.
 Qed.
 
 Lemma sib_length ps qs : sib ps qs -> length ps = length qs.
